@@ -40,6 +40,12 @@ class Tracker:
         self.log = {}  # (arr name, element) -> [set(readers), set(writers)]
         self.naccess = 0
 
+    def alloc_name(self) -> str:
+        """Every array the kernel allocates is an object of its own: scratch made inside a parallel body belongs to
+        the iteration that made it and must not be confused with another thread's."""
+        self.nalloc = getattr(self, "nalloc", 0) + 1
+        return f"alloc#{self.nalloc}"
+
     def rec(self, name, idxs, rw) -> None:
         sim = self.sim
         if sim is None or not sim.in_region:
@@ -132,6 +138,51 @@ class TArr:
     def __iter__(self):
         for i in range(len(self.a)):
             yield self[i]
+
+    # whole-array arithmetic (`tim += part`, `a + b`): a read of every element, giving a plain array;
+    # the in-place forms are a write of every element
+    def _whole(self, rw):
+        self.tr.rec(self.n, range(len(self.a)), rw)
+        return self.a
+
+    def __add__(self, o):
+        return self._whole(0) + np.asarray(o)
+
+    def __radd__(self, o):
+        return np.asarray(o) + self._whole(0)
+
+    def __sub__(self, o):
+        return self._whole(0) - np.asarray(o)
+
+    def __rsub__(self, o):
+        return np.asarray(o) - self._whole(0)
+
+    def __mul__(self, o):
+        return self._whole(0) * np.asarray(o)
+
+    def __rmul__(self, o):
+        return np.asarray(o) * self._whole(0)
+
+    def __truediv__(self, o):
+        return self._whole(0) / np.asarray(o)
+
+    def __iadd__(self, o):
+        self._whole(0)
+        self._whole(1)
+        self.a += np.asarray(o)
+        return self
+
+    def __isub__(self, o):
+        self._whole(0)
+        self._whole(1)
+        self.a -= np.asarray(o)
+        return self
+
+    def __imul__(self, o):
+        self._whole(0)
+        self._whole(1)
+        self.a *= np.asarray(o)
+        return self
 
 
 class TField:
@@ -227,16 +278,16 @@ def outline(disp, sim, tr):
             return getattr(np, k)
 
         def empty_like(s, a, *x, **y):
-            return TArr(np.zeros_like(np.asarray(a), *x, **y), "alloc", tr)
+            return TArr(np.zeros_like(np.asarray(a), *x, **y), tr.alloc_name(), tr)
 
         def zeros_like(s, a, *x, **y):
-            return TArr(np.zeros_like(np.asarray(a), *x, **y), "alloc", tr)
+            return TArr(np.zeros_like(np.asarray(a), *x, **y), tr.alloc_name(), tr)
 
         def empty(s, *x, **y):
-            return TArr(np.zeros(*x, **y), "alloc", tr)
+            return TArr(np.zeros(*x, **y), tr.alloc_name(), tr)
 
         def zeros(s, *x, **y):
-            return TArr(np.zeros(*x, **y), "alloc", tr)
+            return TArr(np.zeros(*x, **y), tr.alloc_name(), tr)
 
     # tuning knobs: module-level ALL-CAPS integer constants (block sizes or thread counts at which another code
     # path takes over) are replaced for the run when the schedule says so, so that small blocks reach those paths
@@ -283,11 +334,19 @@ class Sim:
         self.regions = 0
         self.conf = ([], [])
         self.partials = {}
+        self.array_reds = {}  # name of a floating-point ARRAY reduced across threads -> threads that contributed
 
     # -- reductions (numba semantics: private partials combined at the join)
     def red(self, name, op, val) -> None:
         t = self.tid.get(threading.get_ident(), -1)
         key = (name, t)
+        if isinstance(val, TArr):
+            val = np.array(val.a)
+        if isinstance(val, np.ndarray) and val.ndim >= 1 and val.dtype.kind in "fc":
+            # numba accepts `arr += x` in a prange as an ARRAY reduction: per-thread private copies, added at the join.
+            # The elements of the result are then sums of per-thread partial sums - computed from several threads,
+            # grouped by the schedule (floating-point addition is not associative).
+            self.array_reds.setdefault(name, set()).add(t)
         if op == "+":
             self.partials[key] = self.partials.get(key, 0) + val
         else:
